@@ -1,5 +1,7 @@
 import QuantemModel.Core.Proto
 import QuantemModel.Model.SaveFs
+import QuantemModel.Model.SerializeTrace
+import QuantemModel.Core.SerializeJson
 open Lean QuantemModel QuantemModel.Proto QuantemModel.SaveFs
 
 namespace DrvC08
@@ -36,6 +38,13 @@ def fsToJson (fs : Fs) : Json :=
 def step (st : Unit) (j : Json) : Unit × Json :=
   match (do
     let op ← strField j "op"
+    if op == "trace" then
+      let v ← QuantemModel.SerializeJson.valOfJson (← field j "v")
+      let tr := QuantemModel.Serialize.traceSave {} v
+      let nm : QuantemModel.Serialize.W → String
+        | .group => "group" | .attr => "attr" | .array => "array" | .bytes => "bytes"
+      pure (okJson (Json.arr (tr.map fun w => Json.str (nm w)).toArray))
+    else
     let c : Cfg := { target := (← strField j "target"), staged := (← strField j "staged"), id := (← natField j "id") }
     let fs ← fsOfJson (← field j "fs")
     let fault : Option Nat := (natField j "fault").toOption
